@@ -14,7 +14,7 @@ RULE = (
     "instance, classmethod via class / instance / subclass, staticmethod via class / instance} (wrappers only on the "
     "bindings they are written for) x 6 argument patterns (positional, keyword, defaults omitted, keyword-only, all "
     "keywords, mixed) x body {plain function, generator awaiting a child, generator blocking on a batch item} is "
-    "ENUMERATED COMPLETELY in both tiers (thorough adds random argument values); for each cell the sync call, "
+    "ENUMERATED COMPLETELY in both tiers (thorough adds random argument values); in addition, for every decorator x body ONE decorated object is reached through all its bindings one after another in seeded orders (class before subclass and the reverse, instance before class ...); for each cell the sync call, "
     ".asynq().value(), yielding .asynq() from a task, async_call (value() and yielded) must all equal a plain-Python twin "
     "evaluated with the same bound instance/class and normalised arguments (sync_fn's twin for the sync call); "
     "is_async_fn / is_pure_async_fn / has_async_fn / get_async_fn / get_async_or_sync_fn must agree with how the object "
@@ -238,7 +238,7 @@ def outcome(fn):
         return ("exc", exc_desc(e))
 
 
-def run_cell(deco, body, binding, pat, argvals=None):
+def run_cell(deco, body, binding, pat, argvals=None, shared=None):
     import asynq
     from asynq import asynq as A
     from asynq import async_call, get_async_fn, get_async_or_sync_fn, has_async_fn, is_async_fn, is_pure_async_fn
@@ -248,8 +248,11 @@ def run_cell(deco, body, binding, pat, argvals=None):
 
     asynq.scheduler.reset()
     DeduplicateDecorator.tasks.clear()
-    rt = harness.HarnessRT({"nodes": [], "kinds": 1})
-    ns = build(deco, body, rt)
+    if shared is None:
+        rt = harness.HarnessRT({"nodes": [], "kinds": 1})
+        ns = build(deco, body, rt)
+    else:
+        rt, ns = shared
     c, lead, bound = access(ns, binding)
     args, kw = pat
     if argvals is not None:
@@ -326,6 +329,28 @@ def run_cell(deco, body, binding, pat, argvals=None):
     return viol, nconv
 
 
+def run_shared_namespace(deco, body, order_seed):
+    """One decorated function/class; every binding is reached through it, one after another, in a
+    seeded order - descriptors that cache anything per access path would show here."""
+    import random as _r
+    from .. import harness
+
+    rt = harness.HarnessRT({"nodes": [], "kinds": 1})
+    ns = build(deco, body, rt)
+    order = list(SUPPORTED[deco]) * 2
+    _r.Random(order_seed).shuffle(order)
+    viol = []
+    nconv = 0
+    for j, binding in enumerate(order):
+        v, n = run_cell(deco, body, binding, PATTERNS[(order_seed + j) % len(PATTERNS)], None, shared=(rt, ns))
+        nconv += n
+        for x in v:
+            viol.append((x[0], dict(x[1], binding=binding, access_order=order[: j + 1][-6:]) if isinstance(x[1], dict) else {"binding": binding, "violation": x[1]}))
+        if viol:
+            break
+    return viol, nconv
+
+
 def classify_plain(res, c):
     """Undecorated callables: helpers must say 'not async' and wrap on request."""
     from asynq import get_async_fn, get_async_or_sync_fn, has_async_fn, is_async_fn, is_pure_async_fn
@@ -372,6 +397,9 @@ def plan(tier, seed, build, scale):
     per = (n + k - 1) // k
     units = [{"mode": "matrix", "cases": [a, min(n, a + per)]} for a in range(0, n, per)]
     units.append({"mode": "plain", "cases": [0, 1]})
+    nsh = len(DECOS) * len(BODIES) * (4 if tier == "quick" else 24)
+    units.append({"mode": "shared_ns", "cases": [0, nsh // 2]})
+    units.append({"mode": "shared_ns", "cases": [nsh // 2, nsh]})
     if tier == "thorough":
         nr = int(6000 * scale)
         per = nr // 8
@@ -390,6 +418,26 @@ def run_unit(unit, progress):
         return res
     allc = cells()
     a, b = unit["cases"]
+    if unit["mode"] == "shared_ns":
+        combos = [(d, bd) for d in DECOS for bd in BODIES]
+        for i in range(a, b):
+            progress(i)
+            deco, body = combos[i % len(combos)]
+            viol, nconv = run_shared_namespace(deco, body, tl.case_seed(unit["seed"], ID, i) % 100000)
+            res["evaluations"] += nconv
+            c["shared_namespace_runs"] = c.get("shared_namespace_runs", 0) + 1
+            res["nontrivial"].append(hash(("shared", deco, body, i)) & 0xFFFFFFFFFFFF)
+            for v in viol[:2]:
+                if len(res["violations"]) < 10:
+                    res["violations"].append(
+                        {
+                            "oracle": v[0],
+                            "mechanism": "%s/%s/one-object-reached-through-several-bindings" % (v[0], deco),
+                            "detail": {"decorator": deco, "body": body, "violation": v[1]},
+                            "case": {"mode": "shared_ns", "cases": [i, i + 1]},
+                        }
+                    )
+        return res
     for i in range(a, b):
         progress(i)
         if unit["mode"] == "matrix":
@@ -425,7 +473,7 @@ def run_unit(unit, progress):
 
 def reach(c, tier):
     out = []
-    for k in ["cells_" + d for d in DECOS] + ["cells_binding_" + b for b in BINDINGS] + ["plain_callables"]:
+    for k in ["cells_" + d for d in DECOS] + ["cells_binding_" + b for b in BINDINGS] + ["plain_callables", "shared_namespace_runs"]:
         if not c.get(k):
             out.append("%s is zero" % k)
     if c.get("cells", 0) < len(cells()):
